@@ -29,7 +29,7 @@ func GenElem(big bool) *rapid.Generator[[]byte] {
 	}
 	if big {
 		gens = append(gens,
-			rapid.Map(rapid.IntRange(250, 300), func(n int) []byte { return bytes.Repeat([]byte{'z'}, n) }),       // prevlen >= 254 for the next ziplist entry, zipmap 5-byte length
+			rapid.Map(rapid.IntRange(250, 300), func(n int) []byte { return bytes.Repeat([]byte{'z'}, n) }),        // prevlen >= 254 for the next ziplist entry, zipmap 5-byte length
 			rapid.Map(rapid.IntRange(4090, 4200), func(n int) []byte { return bytes.Repeat([]byte{'q', 1}, n/2) }), // listpack 12-bit -> 32-bit string header
 			rapid.Map(rapid.IntRange(16380, 16500), func(n int) []byte { return bytes.Repeat([]byte{'w'}, n) }),    // ziplist 14-bit -> 32-bit, rdb 14-bit -> 32-bit length
 		)
